@@ -436,6 +436,46 @@ def run_clif_one(item, tier, work, cap):
         return dict(label=label, path=path, error=f"worker failed: {e}", modules=[])
 
 
+
+def replay_illtyped(path, top, work, env=None):
+    """the encoder refused the IR as ill-typed: does the real engine crash while building / running it?"""
+    sp = os.path.join(work, f"illtyped_{abs(hash((path, top))) % 10**8}.json")
+    json.dump(dict(inputs={}, outputs=[]), open(sp, "w"))
+    e = dict(os.environ)
+    e.update(env or {})
+    try:
+        p = subprocess.run([TVDUMP, "jitdiff", path, top, sp], capture_output=True, text=True, timeout=300, env=e)
+    except Exception as ex:  # noqa: BLE001
+        return None, str(ex)
+    if p.returncode != 0 and "panicked" in p.stderr:
+        msg = next((l for l in p.stderr.splitlines() if "panicked" in l), "")
+        nxt = p.stderr.splitlines()
+        return True, (msg + " " + (nxt[nxt.index(msg) + 1] if msg in nxt and nxt.index(msg) + 1 < len(nxt) else ""))[:300]
+    return False, p.stdout.strip()[-200:]
+
+
+def replay_known_c18(known):
+    """each listed C18 finding is re-run natively from its stored inputs; a line is printed only while it reproduces"""
+    lines = []
+    for f in known.get("findings", []):
+        if f.get("property") != "C18" or not f.get("file"):
+            continue
+        sp = os.path.join(TARGET, "tvwork", f"kf_{abs(hash(f['design'])) % 10**8}.json")
+        os.makedirs(os.path.dirname(sp), exist_ok=True)
+        json.dump(dict(inputs=f["inputs"], outputs=f["outputs"]), open(sp, "w"))
+        try:
+            p = subprocess.run([TVDUMP, "jitdiff", os.path.join(ROOT, f["file"]), f["top"], sp], capture_output=True,
+                               text=True, timeout=300)
+            out = json.loads(p.stdout.strip().splitlines()[-1])
+        except Exception:  # noqa: BLE001
+            continue
+        exp = f.get("expect_ieee") or {}
+        off = [k for k, v in exp.items() if out.get("jit", {}).get(k) != v or out.get("interpreter", {}).get(k) != v]
+        if out.get("differ") or off:
+            lines.append(f"KNOWN-FINDING: property=C18 {f['what'][:220]} ({f['design']})")
+    return lines
+
+
 def run_c18_tv(tier, seed, only=None):
     import gen_corpus
     import hashlib
@@ -447,7 +487,8 @@ def run_c18_tv(tier, seed, only=None):
     if not build_tvdump():
         return 2, dict(jit_tv="tvdump did not build")
     items = []
-    for label, code in gen_corpus.gen_jit(seed) + gen_corpus.gen_opt(seed):
+    nrand = 64 if tier == "quick" else 400
+    for label, code in gen_corpus.gen_jit(seed) + gen_corpus.gen_opt(seed) + gen_corpus.gen_random(seed, nrand):
         h = hashlib.sha1(code.encode()).hexdigest()[:10]
         p = os.path.join(snips, f"jit_{re.sub(r'[^A-Za-z0-9_]', '_', label)}_{h}.veryl")
         if not os.path.exists(p):
@@ -464,7 +505,7 @@ def run_c18_tv(tier, seed, only=None):
         results = list(ex.map(lambda it: run_clif_one(it, tier, work, cap), items))
     stats = collections.Counter()
     reasons = collections.Counter()
-    diffs, samples = [], []
+    diffs, samples, illtyped = [], [], []
     queries = 0
     for r in results:
         if r.get("error"):
@@ -478,11 +519,29 @@ def run_c18_tv(tier, seed, only=None):
                 reasons[m.get("why", "")[:60]] += 1
             if v == "differs":
                 diffs.append((r, m))
+            if v == "illtyped":
+                illtyped.append((r, m))
             if v == "equal" and len(samples) < 10:
                 samples.append(dict(design=r["label"], top=m["top"], outputs_compared=m.get("obligations"),
                                     clif_functions=m.get("functions")))
     known = load_known()
-    violations, known_lines, unrepro = [], [], []
+    violations, unrepro = [], []
+    known_lines = replay_known_c18(known)
+    for (r, m) in illtyped:
+        crashed, msg = replay_illtyped(r["path"], m["top"], work)
+        key = f"{r['label']}::{m['top']}::ill-typed IR"
+        if crashed:
+            rp = os.path.join(ROOT, "evidence", "replay",
+                              f"C18-{r['label'].replace('::', '_').replace('#', '_')}-{m['top']}-illtyped.json")
+            os.makedirs(os.path.dirname(rp), exist_ok=True)
+            json.dump(dict(property="C18", design=r["label"], path=r["path"], top=m["top"], encoder=m.get("why"),
+                           native=msg, replay_cmd=f"{TVDUMP} jitdiff {r['path']} {m['top']} <any inputs json>"),
+                      open(rp, "w"), indent=1)
+            violations.append((key, rp))
+        elif crashed is False:
+            reasons["ill-typed IR in the encoder, engine runs (verifier-only difference)"] += 1
+        else:
+            unrepro.append((key, msg))
     for (r, m) in diffs:
         key = f"{r['label']}::{m['top']}::{m.get('port')}"
         sp = os.path.join(work, f"jitstim_{abs(hash(key)) % 10**8}.json")
@@ -530,7 +589,7 @@ def run_c18_tv(tier, seed, only=None):
             print(f"VIOLATION property=C18 replay={rp}")
         return 1, cov
     proved = stats.get("equal", 0)
-    floor = 300 if not only else 0
+    floor = 450 if not only else 0
     if unrepro or proved < floor:
         log(f"INCONCLUSIVE C18 jit part: {dict(stats)} unreproduced={unrepro[:3]} (floor {floor})")
         return 2, cov
@@ -598,7 +657,7 @@ def run_c03(tier, seed, write_evidence, only=None):
         log("INCONCLUSIVE C03: tvdump did not build")
         return 2
     items = []
-    gens = gen_corpus.gen_opt(seed)
+    gens = gen_corpus.gen_opt(seed) + gen_corpus.gen_random(seed, 48 if tier == "quick" else 300)
     if tier == "thorough":
         gens = gens + gen_corpus.gen_jit(seed)
     for label, code in gens:
@@ -740,7 +799,7 @@ def run_c03(tier, seed, write_evidence, only=None):
             print(f"VIOLATION property=C03 replay={rp}")
             log(f"  {k}")
         return 1
-    floor = (60 if tier == "quick" else 300) if not only else 0
+    floor = (300 if tier == "quick" else 600) if not only else 0
     missing = [n for n in ("no_comb_fusion", "no_dead_var_dce", "no_vsplit", "no_vsplit_lut", "no_comb_layout",
                            "no_switch_lower") if not distinct.get(n)] if not only else []
     if unrepro or proved < floor or missing:
